@@ -1,5 +1,6 @@
 import TexcraftModel.Lemmas.C20GMap
 import TexcraftModel.Lemmas.C20Vec
+import TexcraftModel.Lemmas.C20Obs
 import TexcraftModel.Lemmas.C20Interner
 import TexcraftModel.Lemmas.C20Kmp
 import TexcraftModel.Lemmas.C20Tags
@@ -92,6 +93,18 @@ theorem iterAll_roundtrip_run (pre post : List (Op K V)) :
   refine ⟨items, hi, C20.iterAll_same_behaviour _ hinv items hi post, ?_⟩
   have h1 := (gmap_refines_run_from (GMap.fromIter items) hinv' post).1
   rw [h1, habs, (C20.gmap_refines_run pre).2]
+
+/-- The other observers agree with the specification's visible state: `iter()` yields exactly the
+visible pairs, each key once; `len()` counts them; `is_empty()` holds iff nothing is visible. -/
+theorem gmap_iter_spec (m : GMap K V) (h : Inv m) :
+    (∀ k v, (k, v) ∈ m.iter ↔ m.abs.cur k = some v) ∧ (m.iter.map (·.1)).Nodup ∧
+    m.len = m.iter.length ∧ (m.isEmpty = true ↔ ∀ k, m.abs.cur k = none) :=
+  C20.gmap_iter_spec m h
+
+/-- `extend` is exactly a history of local inserts (so everything above applies to it). -/
+theorem gmap_extend_run (m : GMap K V) (l : List (K × V)) :
+    m.extend l = (m.run (l.map fun p => Op.insert p.1 p.2 .loc)).1 :=
+  C20.gmap_extend_run m l
 
 -- non-vacuity: a concrete nested history, its iteration, and the rebuilt map's reads
 example :
